@@ -3,6 +3,7 @@
 #include "vf.h"
 #include "guard.h"
 #include <igris/util/crc.h>
+#include <vector>
 
 // ---------------------------------------------------------------- references (from the definitions)
 // generic MSB-first CRC of width W (W <= 32), polynomial without the top bit
@@ -223,11 +224,77 @@ static void rand_run(uint64_t idx)
 }
 VF_SUITE(randmsgs, rand_count, rand_run)
 
+
+// (d) long messages: the length parameters are 16 / 32 bit wide, the streaming CRC has no length at all
+static const uint32_t LONGLEN[] = {256, 257, 511, 512, 1000, 1023, 1024, 1025, 2047, 2048, 4095, 4096, 4097, 8191, 16384,
+                                   32767, 32768, 65534, 65535, 65536, 65537, 100003, 262145};
+static uint64_t long_count() { return (sizeof LONGLEN / sizeof LONGLEN[0]) * (vf::thorough() ? 24 : 3); }
+static void long_run(uint64_t idx)
+{
+    size_t nl = sizeof LONGLEN / sizeof LONGLEN[0];
+    uint32_t n = LONGLEN[idx % nl];
+    vf::Rng r(vf::seed(), 0xC17D, idx);
+    unsigned mis = (unsigned)r.below(8);
+    std::vector<uint8_t> m(n);
+    int mode = (int)((idx / nl) % 3);
+    for (auto &b : m)
+        b = mode == 0 ? (uint8_t)r.next() : mode == 1 ? ALPHA[r.below(4)] : (uint8_t)(r.chance(1, 16) ? r.next() : 0xFF);
+    uint32_t seed32 = (uint32_t)r.next();
+    uint16_t s16 = (uint16_t)seed32;
+    uint8_t s8 = (uint8_t)seed32;
+    if (vf::verbose())
+        printf("  long message n=%u misalign=%u seed=%08x mode=%d head=%s\n", n, mis, seed32, mode, vf::hex(m.data(), 16).c_str());
+    vf::Exact e(m.data(), n, mis);
+    const size_t splits[] = {0, 1, 255, 256, 1024, n / 2, n - 1, n};
+    vf::cls("strmcrc8-long");
+    uint8_t rst = ref_strm8(s8, m.data(), n);
+    if (strm8(s8, e.p, n) != rst)
+        vf::fail("strmcrc8:!=reference:long", "n=%u seed=%02x", n, s8);
+    if (n <= 65535)
+    {
+        vf::cls("crc16-long");
+        uint16_t r16 = ref_ccitt(s16, m.data(), n), c16 = igris_crc16(e.p, (uint16_t)n, s16);
+        if (c16 != r16)
+            vf::fail("crc16:!=reference:long", "n=%u misalign=%u seed=%04x got=%04x ref=%04x", n, mis, s16, c16, r16);
+        for (size_t k : splits)
+            if (k <= n && igris_crc16(e.p + k, (uint16_t)(n - k), igris_crc16(e.p, (uint16_t)k, s16)) != r16)
+                vf::fail("crc16:chain:long", "n=%u split=%zu seed=%04x", n, k, s16);
+        VF_OK("crc16 on long messages (256..65535 bytes) == reference, chained == one-shot");
+    }
+    vf::cls("crc32-long");
+    uint32_t r32 = ref_crc32w(seed32, m.data(), n), c32 = igris_crc32(e.p, n, seed32);
+    if (c32 != r32)
+        vf::fail("crc32:!=reference:long", "n=%u misalign=%u seed=%08x got=%08x ref=%08x", n, mis, seed32, c32, r32);
+    for (size_t k : splits)
+        if (k <= n && k % 4 == 0 && igris_crc32(e.p + k, (uint32_t)(n - k), igris_crc32(e.p, (uint32_t)k, seed32)) != r32)
+            vf::fail("crc32:chain:long", "n=%u split=%zu seed=%08x", n, k, seed32);
+    VF_OK("crc32 / strmcrc8 on long messages (up to 262145 bytes) == reference");
+    // the 8-bit-length routines fed piecewise over the long message (255 bytes at a time) == bit-serial reference
+    vf::cls("crc8-long-piecewise");
+    uint8_t a = s8, b = s8;
+    for (size_t off = 0; off < n; off += 255)
+    {
+        uint8_t len = (uint8_t)(n - off < 255 ? n - off : 255);
+        a = igris_crc8(e.p + off, len, a);
+        b = igris_crc8_table(e.p + off, len, b);
+    }
+    if (a != (uint8_t)ref_dallas(s8, m.data(), n) || a != b)
+        vf::fail("crc8:piecewise:long", "n=%u seed=%02x bitserial=%02x table=%02x", n, s8, a, b);
+    VF_OK("crc8 / crc8_table fed 255 bytes at a time over a long message == reference");
+    vf::count_case(vf::hash_bytes(m.data(), n, vf::mix(seed32, mis)), true);
+    if (vf::want_sample())
+        vf::sample("long: n=%u misalign=%u mode=%d", n, mis, mode);
+}
+VF_SUITE(longmsgs, long_count, long_run)
+
 extern "C" void vf_setup()
 {
     for (const char *c : {"crc8 table == bit-serial", "crc8 == Dallas reference", "mmc_crc7 == reference", "strmcrc8 == reference",
                           "strmcrc8(m ++ crc(m)) == 0", "crc16 == CCITT reference", "crc32 == word-oriented reference",
                           "crc32 chained at word boundary == one-shot", "chained == one-shot (crc8, table, crc16, strmcrc8)",
-                          "crc32 HelloWorld calibration vector", "mirrored placement (red zone in front of the message)"})
+                          "crc32 HelloWorld calibration vector", "mirrored placement (red zone in front of the message)",
+                          "crc16 on long messages (256..65535 bytes) == reference, chained == one-shot",
+                          "crc32 / strmcrc8 on long messages (up to 262145 bytes) == reference",
+                          "crc8 / crc8_table fed 255 bytes at a time over a long message == reference"})
         vf::require(c);
 }
